@@ -6,6 +6,7 @@ package gen
 import (
 	"encoding/json"
 	"fmt"
+	"strings"
 
 	"pgregory.net/rapid"
 	"vh/enc"
@@ -36,7 +37,53 @@ type Stream struct {
 type streamJSON struct {
 	RepeatPair []Segment `json:"repeat_pair,omitempty"`
 	Pairs      int       `json:"pairs,omitempty"`
-	Segs       []Segment `json:"segs"`
+	// Counted: the stream starts with CountedFrames(N, Len, Type) - over a mebibyte of frames that
+	// all differ (each carries its index), stored as the three numbers.
+	Counted *CountedSpec `json:"counted_frames,omitempty"`
+	Segs    []Segment    `json:"segs"`
+}
+
+// CountedSpec describes a run of N valid frames of one type and payload length whose payloads carry their index.
+type CountedSpec struct {
+	N    int `json:"n"`
+	Len  int `json:"payload_len"`
+	Type int `json:"type"`
+}
+
+// CountedFrames builds the run: frame i has the 12-bit type, then the index i in the next four bytes
+// (from payload byte 2, as far as the length allows), then a fill derived from i.
+func CountedFrames(sp CountedSpec) []Segment {
+	note := fmt.Sprintf("counted/%d/%d/%d", sp.N, sp.Len, sp.Type)
+	segs := make([]Segment, 0, sp.N)
+	for i := 0; i < sp.N; i++ {
+		body := make([]byte, sp.Len)
+		for k := range body {
+			body[k] = byte(i*7 + k*13)
+		}
+		for k := 0; k < 4 && k+2 < len(body); k++ {
+			body[k+2] = byte(i >> (8 * uint(3-k)))
+		}
+		pl := enc.PayloadWithType(sp.Type, sp.Len+2, body)
+		segs = append(segs, Segment{Kind: "valid", Note: note, Data: enc.Frame(pl)})
+	}
+	return segs
+}
+
+func countedPrefix(segs []Segment) *CountedSpec {
+	if len(segs) == 0 || !strings.HasPrefix(segs[0].Note, "counted/") {
+		return nil
+	}
+	var sp CountedSpec
+	if n, _ := fmt.Sscanf(segs[0].Note, "counted/%d/%d/%d", &sp.N, &sp.Len, &sp.Type); n != 3 || sp.N > len(segs) || sp.N < 1 {
+		return nil
+	}
+	want := CountedFrames(sp)
+	for i := range want {
+		if !sameSeg(want[i], segs[i]) {
+			return nil
+		}
+	}
+	return &sp
 }
 
 func sameSeg(a, b Segment) bool {
@@ -44,6 +91,13 @@ func sameSeg(a, b Segment) bool {
 }
 
 func (s Stream) MarshalJSON() ([]byte, error) {
+	if sp := countedPrefix(s.Segs); sp != nil {
+		rest := s.Segs[sp.N:]
+		if rest == nil {
+			rest = []Segment{}
+		}
+		return json.Marshal(streamJSON{Counted: sp, Segs: rest})
+	}
 	n := 0
 	if len(s.Segs) >= 200 {
 		n = 2
@@ -68,6 +122,9 @@ func (s *Stream) UnmarshalJSON(b []byte) error {
 		return err
 	}
 	s.Segs = nil
+	if j.Counted != nil && j.Counted.N > 0 && j.Counted.N <= 1<<20 && j.Counted.Len >= 0 && j.Counted.Len <= 1021 {
+		s.Segs = CountedFrames(*j.Counted)
+	}
 	if len(j.RepeatPair) == 2 && j.Pairs > 0 && j.Pairs <= 1<<20 {
 		for i := 0; i < j.Pairs; i++ {
 			s.Segs = append(s.Segs, j.RepeatPair[0], j.RepeatPair[1])
@@ -403,6 +460,12 @@ func frameOrRepeat(t *rapid.T, s Stream, maxLen int) []byte {
 func MaybeManyPairs(t *rapid.T) []Segment {
 	if rapid.IntRange(0, 149).Draw(t, "manyPairs") != 77 {
 		return nil
+	}
+	if rapid.IntRange(0, 2).Draw(t, "countedFrames") == 1 {
+		// more than a mebibyte (sometimes more than two) of frames that all differ
+		l := rapid.SampledFrom([]int{11, 120, 1021}).Draw(t, "countedLen")
+		total := rapid.SampledFrom([]int{1<<20 + 70000, 2<<20 + 70000}).Draw(t, "countedBytes")
+		return CountedFrames(CountedSpec{N: total/(l+8) + 1, Len: l, Type: rapid.SampledFrom([]int{1005, 1077, 1230, 4000}).Draw(t, "countedType")})
 	}
 	n := rapid.SampledFrom([]int{4097, 5000, 9000}).Draw(t, "nPairs")
 	junk := []byte(rapid.SampledFrom([]string{"ab\n", "$G\r\n", "x"}).Draw(t, "pairJunk"))
